@@ -675,7 +675,7 @@ def run(ctx):
     # (C09.R3/R4 build side: an alternative or element that fails while building leaves nothing behind in the output, or parsing the bytes sees the debris)
     for mod, rules in ((C10, ("C10.R1", "C10.R2", "C10.R4", "C10.R6")), (C15, ("C15.R1", "C15.R2", "C15.R4", "C15.R6", "C15.R7")), (C09, ("C09.R3", "C09.R4"))):
         sub = shared_run(ctx, mod)
-        for e in sub.errors:
+        for e in relevant_errors(sub, rules):
             ctx.error("shared %s rules: %s" % (sub.prop, e))
         for o in sub.obligations:
             if o.rule in rules:
@@ -684,7 +684,7 @@ def run(ctx):
     C02.position_adapters(ctx, "C01.R7")       # Slicing / Indexing put the object back where parse took it
     C05.probe_specificity(ctx, "C01.R7")       # lazy wrappers skip by a probe that is as specific as the class's size
     sub = shared_run(ctx, C16, prop="C16")
-    for e in sub.errors:
+    for e in relevant_errors(sub, ("C16.R1", "C16.R2", "C16.R6")):
         ctx.error("shared C16 rules: " + e)
     for o in sub.obligations:
         if o.rule in ("C16.R1", "C16.R2", "C16.R6"):
